@@ -336,10 +336,10 @@ class PFITSReader(Filterbank):
         if skipback >= gulp:
             msg = f"readsamps ({gulp}) must be > skipback ({skipback})"
             raise ValueError(msg)
-        nreads, lastread = divmod(nsamps, (gulp - skipback))
-        if lastread < skipback:
-            nreads -= 1
-            lastread = nsamps - (nreads * (gulp - skipback))
+        # Every full read delivers (gulp - skipback) new samples after the overlap
+        nreads, lastread = divmod(nsamps - skipback, (gulp - skipback))
+        if lastread != 0:
+            lastread += skipback
         blocks = [(ii, gulp, -skipback) for ii in range(nreads)]
         if lastread != 0:
             blocks.append((nreads, lastread, 0))
@@ -347,11 +347,11 @@ class PFITSReader(Filterbank):
         for ii, block, skip in track(blocks, description=description, disable=quiet):
             startsub, startsamp = divmod(start, self.sub_hdr.subint_samples)
             nsubs = (
-                nsamps + self.sub_hdr.subint_samples - 1
+                startsamp + block + self.sub_hdr.subint_samples - 1
             ) // self.sub_hdr.subint_samples
 
             data = self._fitsfile.read_subints(startsub, nsubs)
-            data = data[startsamp : startsamp + nsamps]
+            data = data[startsamp : startsamp + block]
             start += block + skip
             yield block, ii, data.ravel()
 
